@@ -15,7 +15,7 @@ RULE = ('for every transfer type/mode (upload x 3 source kinds, download x 4 des
         'non-trivial = the planned fault was actually raised into library code and the outcome oracle compared result() '
         'with the raised-fault log; distinct = (scenario shape incl. fault site, interleaving signature)')
 ASSUMPTIONS = [
-    'fault kinds are Exception subclasses (the BaseException family is separate, see DESIGN F9)',
+    'fault kinds are Exception subclasses, plus a small separate BaseException family that re-finds known finding F9',
     'faults in abort / temp-file removal / on_done are excluded as the statement excludes them',
 ]
 CASE_TIMEOUT = 120.0
@@ -138,6 +138,18 @@ def gen_cases(tier, seed):
                 s['plan'] = {'faults': [dict(singles[a], tag=f'FAULT-{bi}-a{a}'), dict(singles[b], tag=f'FAULT-{bi}-b{b}')],
                              'delay_p': rng.choice([0.0, 0.3])}
                 cases.append(s)
+    # BaseException family (not an Exception: KeyboardInterrupt / SystemExit-like) raised inside request-stage work
+    for bi, base in enumerate(base_scenarios(rng)):
+        t = base['transfers'][0]
+        from .c04 import sites_for
+
+        sites = [k for k in sites_for(t, 16, 8) if ('/s3:' in k and 'HeadObject' not in k) or '/cb:on_progress' in k]
+        for k in (sites if not quick else rng.sample(sites, min(2, len(sites)))):
+            s = copy.deepcopy(base)
+            s['seed'] = rng.randrange(1 << 30)
+            s['family'] = 'base-exception'
+            s['plan'] = {'faults': [{'at': k, 'phase': 'before', 'kind': 'base', 'tag': f'FAULT-base-{bi}'}]}
+            cases.append(s)
     if not quick:
         # real-constant family: 5 MiB parts, a fault in the middle part
         MB = 1024 * 1024
